@@ -97,9 +97,9 @@ var numNonInt = []string{"(num 0.0)", "(num -0.0)", "(num 0.5)", "(num -1.5)", "
 var miscPool = []val{
 	{"$nil", "nil", 0}, {"$true", "bool", 0}, {"$false", "bool", 0}, {"$ok", "exc", 0},
 	{"?(fail x)", "exc", 0}, {"?(fail [a])", "exc", 0}, {"?(fail x | fail y)", "exc", 0}, {"?(return)", "exc", 0}, {"?(break)", "exc", 0},
-	{"?(fail \"\\xff\")", "exc", 0}, {"?(put >&-)", "exc", 0}, {"?(nop (num x))", "exc", 0}, {"?(fail $nil)", "exc", 0},
+	{"?(fail \"\\xff\")", "exc", 0}, {"?(put x >&-)", "exc", 0}, {"?(nop (num x))", "exc", 0}, {"?(fail $nil)", "exc", 0},
 	{"?(fail x)[reason]", "struct", 0}, {"?(fail x | fail y)[reason]", "struct", 0}, {"?(return)[reason]", "struct", 0}, {"?(fail x | fail y)[reason][exceptions]", "list", 0},
-	{"?(put >&-)[reason]", "struct", 0}, {"?(nop 1 &x=y)[reason]", "struct", 0}, {"?(+ a)[reason]", "struct", 0}, {"?(fail x)[stack-trace]", "struct", 0},
+	{"?(put x >&-)[reason]", "struct", 0}, {"?(+ 1 &x=y)[reason]", "struct", 0}, {"?(+ a)[reason]", "struct", 0}, {"?(fail x)[stack-trace]", "struct", 0},
 	{"[]", "list", 0}, {"[a]", "list", 0}, {"[a b c]", "list", 0}, {"[(num 1) 2 3.5]", "list", 0}, {"[[a] [b [c]]]", "list", 0}, {"[$nil]", "list", 0}, {"[(range 100)]", "list", 0},
 	{"[\"\\xff\" '']", "list", 0}, {"[1 2 3]", "list", 0}, {"[-a --long x]", "list", 0}, {"[-- -a]", "list", 0}, {"[a [b] [&k=v] $nil (num 1)]", "list", 0}, {"[b a c a]", "list", 0},
 	{"[(num nan) 1 a]", "list", 0}, {"[[&short=a] [&long=abc &arg-required=$true]]", "list", 0}, {"[[&short=ab]]", "list", 0}, {"[[&long=''] [&short=a &arg-optional=$true &arg-required=$true]]", "list", 0},
